@@ -4,6 +4,8 @@
 #include "generator.h"
 #include "queue.h"
 
+#include <optional>
+
 
 namespace cocls {
 
@@ -31,14 +33,26 @@ public:
 
     template<typename ... Args>
     void charge(Args && ... args) {
-        _gen.next(std::forward<Args>(args)...).subscribe(this);
+        if constexpr(std::is_void_v<Arg>) {
+            _gen.next().subscribe(this);
+        } else {
+            //the generator receives the argument as a reference and an asynchronous generator
+            //can read it any time during its step (co_yield nullptr after co_await), so
+            //the argument must live as long as the step: keep a copy here, it is replaced
+            //by the next charge (when the generator is parked in co_yield)
+            _arg.emplace(std::forward<Args>(args)...);
+            _gen.next(*_arg).subscribe(this);
+        }
     }
     generator<T, Arg> &get_generator() {
         return _gen;
     }
 protected:
+    using arg_storage = std::conditional_t<std::is_void_v<Arg>, std::nullptr_t, std::optional<Arg> >;
+
     GenAggrQueue<T, Arg> &_q;
     generator<T, Arg> _gen;
+    [[no_unique_address]] arg_storage _arg = {};
 };
 
 
